@@ -202,7 +202,7 @@ theorem clamped_axis_differs :
       (heatWindow (1 + lmh 2019 (1 - 1)) wClampH).2 = 43 := by
   have hm : mdays 2019 1 = 31 := mdays_one 2019
   have hrun : MonthRuns 2019 wClampH true 1 := by
-    intro _; rw [hm]; simp only [wClampH]; norm_num
+    intro _; rw [hm]; simp only [pulseHours, wClampH]; norm_num
   have h744 : lmh 2019 1 = 744 := by
     rw [lmh_succ 2019 1 (by norm_num), show (1 : Int) - 1 = 0 by norm_num, lmh_zero, hm]; norm_num
   refine ⟨_, emitMonth_runs 2019 wClampH true 1 (by norm_num) hrun, ?_, ?_⟩
@@ -233,7 +233,7 @@ example : ∃ seq, processMonthLoads 2019 wBase 1 27 = .ok seq ∧ lastHour 0 se
     intro _
     have hmd := mdays_ge 2019 i
     have hmdR : (28 : Rat) ≤ (mdays 2019 i : Rat) := by exact_mod_cast hmd
-    simp only [wBoth]; intro h; linarith)
+    simp only [pulseHours, wBoth]; intro h; norm_num at h; linarith)
   refine ⟨seq, h1, ?_⟩
   have := h3 (by decide) 2 3 (by norm_num) (by norm_num)
   rw [this]; simp [daysBefore, commonYear]
